@@ -4,6 +4,7 @@
 package decode
 
 import (
+	"errors"
 	"fmt"
 	"go/ast"
 	"go/parser"
@@ -267,6 +268,10 @@ type ParserTables struct {
 
 const Accept = math.MaxInt32
 
+// ErrLayout marks "the documented table variables are not there at all": the
+// generated code was restructured, which the decoder cannot judge.
+var ErrLayout = errors.New("generated table layout not recognised")
+
 func pairRows(arr []int64, n int, what string) ([]map[int64]int64, error) {
 	rows, offsets, err := Rows(arr, n)
 	if err != nil {
@@ -303,7 +308,7 @@ func Parser(f *File, n int) (*ParserTables, error) {
 	rules, ok3 := f.Ints["_rules"]
 	counts, ok4 := f.Ints["_termCounts"]
 	if !ok1 || !ok2 || !ok3 || !ok4 {
-		return nil, fmt.Errorf("parser.gen.go lacks one of _actions/_goto/_rules/_termCounts")
+		return nil, fmt.Errorf("%w: parser.gen.go lacks one of _actions/_goto/_rules/_termCounts", ErrLayout)
 	}
 	if len(acts) == 0 || len(gotos) == 0 {
 		return nil, fmt.Errorf("empty parser table")
